@@ -192,7 +192,20 @@ func checkFunction(e *Enc, tier string, seed int, keepDir string) []*Result {
 			defer wg.Done()
 			sem <- struct{}{}
 			defer func() { <-sem }()
-			results[i] = race(e, e.obls[i], raceMs, seed)
+			r := race(e, e.obls[i], raceMs, seed)
+			want := "unsat"
+			if e.obls[i].Cover {
+				want = "sat"
+			}
+			if r.Status != want && r.Status != "sat" && r.Status != "unsat" {
+				// undecided: one more attempt with another seed and three times the budget (solver time-outs under load
+				// must not turn into alarms)
+				r2 := race(e, e.obls[i], 3*raceMs, seed+7919)
+				if r2.Status == "sat" || r2.Status == "unsat" {
+					r = r2
+				}
+			}
+			results[i] = r
 		}(i)
 	}
 	wg.Wait()
